@@ -45,6 +45,7 @@ def key_term(kty, k: SV):
         return S.Id.NoneId if kty == "Id" else None
     if isinstance(k, SPrim):
         if k.ty == kty: return k.t
+        if kty == "PyVal" and k.ty == "str": return S.pv_of_str(k.t)
         if kty == "Id":
             if k.ty == "str": return S.Id.StrId(k.t)
             if k.ty == "int": return S.Id.IntId(k.t)
@@ -121,6 +122,9 @@ def equal(st: St, a: SV, b: SV):
         return z3.BoolVal(False)
     if isinstance(a, SPrim) and isinstance(b, SPrim):
         if a.ty == b.ty: return a.t == b.t
+        if {a.ty, b.ty} == {"PyVal", "str"}:
+            pv, st_ = (a, b) if a.ty == "PyVal" else (b, a)
+            return pv.t == S.pv_of_str(st_.t)
         if {a.ty, b.ty} == {"Id", "str"}:
             i, s = (a, b) if a.ty == "Id" else (b, a)
             return z3.And(S.Id.is_StrId(i.t), S.Id.s(i.t) == s.t)
